@@ -1481,3 +1481,33 @@ add('C07', 'breaker', 'enum-member-without-class', [(P, '''    return concat([
         general_identifier(cls),
         identifier('.{}'.format(attrname))
     ])''', '''    return identifier('{}'.format(attrname))''')], 'C07')
+
+# ----------------------------------------------------------------------------- C07.h
+add('C07', 'breaker', 'timedelta-days-split-before-filter', [(S, '''    attrs = [
+        ('days', days),''', '''    years, days = divmod(days, 365)
+    attrs = [
+        ('days', days),''')], 'C07.h')
+add('C07', 'breaker', 'timedelta-minutes-from-seconds', [(S, "        ('minutes', minutes),", "        ('minutes', seconds),")], 'C07.h')
+add('C07', 'breaker', 'timedelta-sign-lost', [(S, '''    if negative:
+        doc = concat([NEG_OP, doc])
+''', '')], 'C07.h')
+add('C07', 'breaker', 'chainmap-default-test-simplified', [(S, '''        not value.maps or
+        len(value.maps) == 1 and
+        not value.maps[0]''', '''        not value.maps or
+        not value.maps[0]''')], 'C07.h')
+add('C07', 'breaker', 'datetime-drops-zero-minute-between', [(S, '''            lambda k__v: k__v[1] == 0,
+            dt_kwargs''', '''            lambda k__v: k__v[1] == 0,
+            [kv for kv in dt_kwargs if kv[0] != 'minute' or kv[1]]''')], 'C07.h')
+add('C07', 'breaker', 'time-fold-always', [(S, '''    if getattr(value, 'fold', 0) != 0:
+        additional_kws.append(('fold', value.fold))''', '''    additional_kws.append(('fold', value.fold))''')], 'C07.h')
+add('C07', 'breaker', 'deque-maxlen-when-falsy', [(S, '    if value.maxlen is not None:', '    if value.maxlen:')], 'C07.h')
+add('C07', 'breaker', 'ordereddict-loses-order', [(S, 'args=(list(d.items()), ))', 'args=(sorted(d.items()), ))')], 'C07.h')
+add('C07', 'twin', 'chainmap-test-rewritten', [(S, '''    if (
+        not value.maps or
+        len(value.maps) == 1 and
+        not value.maps[0]
+    ):
+        return pretty_call_alt(ctx, constructor)''', '''    maps = value.maps
+    only_default = len(maps) == 1 and not maps[0]
+    if not maps or only_default:
+        return pretty_call_alt(ctx, constructor)''')])
